@@ -2584,7 +2584,8 @@ theorem copyChildren_spec {fs : FS} (hw : WF fs) (g : String) (S : Path) (df : S
       (oc = .ok →
         (∀ x ∈ cs, lookupK h.entries [x] = none) ∧
         (∀ k, (∀ x ∈ cs, under [x] k = false) → lookupK h1.entries k = lookupK h.entries k) ∧
-        (∀ x ∈ cs, ∃ g' Q hs d, resolve fs g (S ++ [x]) = some (g', Q) ∧ getFile fs g' = some hs ∧
+        (∀ x ∈ cs, ∃ g' Q hs d h', resolve (setFile fs df h') g (S ++ [x]) = some (g', Q) ∧ g' ≠ df ∧
+          getFile fs g' = some hs ∧
           ∀ r, lookupK h1.entries (x :: r) = (lookupK hs.entries (Q ++ r)).map (Entry.shift d))) := by
   intro cs
   induction cs with
@@ -2603,7 +2604,7 @@ theorem copyChildren_spec {fs : FS} (hw : WF fs) (g : String) (S : Path) (df : S
       exact ⟨hwh, fun _ _ hk => hk, by simp⟩
     | none =>
       simp only [hl] at hc
-      cases hr : resolve fs g (S ++ [x]) with
+      cases hr : resolve (setFile fs df h) g (S ++ [x]) with
       | none =>
         simp only [hr, Prod.mk.injEq] at hc
         obtain ⟨rfl, rfl⟩ := hc
@@ -2640,7 +2641,8 @@ theorem copyChildren_spec {fs : FS} (hw : WF fs) (g : String) (S : Path) (df : S
             intro hoc
             obtain ⟨c1, c2, c3⟩ := b3 hoc
             -- the copied child's own entry is present, so `x` does not occur again
-            obtain ⟨e0, he0, _⟩ := resolveN_present hw _ _ _ _ _ hr
+            obtain ⟨e0, he0, _⟩ := resolveN_present (wf_setFile hw hwh) _ _ _ _ _ hr
+            rw [lookupE_setFile_other _ _ _ _ _ hgd] at he0
             have hxroot : (lookupK (putRegion h.entries [x] (shiftOids h.next (getRegion hs.entries Q))) [x]).isSome := by
               have := lookupK_putRegion_under h.entries [x] (shiftOids h.next (getRegion hs.entries Q)) []
               simp only [List.append_nil] at this
@@ -2671,7 +2673,7 @@ theorem copyChildren_spec {fs : FS} (hw : WF fs) (g : String) (S : Path) (df : S
             · intro y hy
               simp only [List.mem_cons] at hy
               rcases hy with rfl | hy
-              · refine ⟨g', Q, hs, h.next, hr, hgs, fun r => ?_⟩
+              · refine ⟨g', Q, hs, h.next, h, hr, hgd, hgs, fun r => ?_⟩
                 have hoff : ∀ z ∈ rest, under [z] (y :: r) = false := by
                   intro z hz
                   cases hc' : under [z] (y :: r) with
@@ -2688,7 +2690,7 @@ theorem copyChildren_spec {fs : FS} (hw : WF fs) (g : String) (S : Path) (df : S
 
 theorem copyToRoot_ok {fs1 : FS} {g : String} {S : Path} {df : String} {fs' : FS}
     (h : copyToRoot fs1 g S df = (fs', .ok)) :
-    ∃ hs hd o a o' sattrs h1, getFile fs1 g = some hs ∧ getFile fs1 df = some hd ∧
+    g ≠ df ∧ ∃ hs hd o a o' sattrs h1, getFile fs1 g = some hs ∧ getFile fs1 df = some hd ∧
       lookupK hs.entries S = some (.group o' sattrs) ∧ lookupK hd.entries [] = some (.group o a) ∧
       copyChildren fs1 g S df hd (childNames hs.entries S) = (h1, .ok) ∧
       fs' = setFile fs1 df ⟨setEntry h1.entries [] (.group o (attrsUpdate a sattrs)), h1.next⟩ := by
@@ -2699,13 +2701,14 @@ theorem copyToRoot_ok {fs1 : FS} {g : String} {S : Path} {df : String} {fs' : FS
     · rename_i o' sattrs hl
       split at h
       · simp at h
-      · split at h
+      · rename_i hgne
+        split at h
         · rename_i o a hroot
           split at h
           · simp at h
           · split at h
             · rename_i h1 hcc
-              exact ⟨hs, hd, o, a, o', sattrs, h1, hgs, hgd, hl, hroot, hcc, (Prod.mk.inj h).1.symm⟩
+              exact ⟨hgne, hs, hd, o, a, o', sattrs, h1, hgs, hgd, hl, hroot, hcc, (Prod.mk.inj h).1.symm⟩
             · rename_i h1 oc hne hcc
               exact absurd (Prod.mk.inj h).2 hne
         · simp at h
@@ -2714,7 +2717,7 @@ theorem copyToRoot_ok {fs1 : FS} {g : String} {S : Path} {df : String} {fs' : FS
 
 theorem copyToRoot_reads {fs1 : FS} (hw : WF fs1) {g : String} {S : Path} {df : String} {fs' : FS}
     (h : copyToRoot fs1 g S df = (fs', .ok)) {c : Nat} (hr : ReadsAt fs1 (g, S) c) : Reads fs' df [] c := by
-  obtain ⟨hs, hd, o, a, o', sattrs, h1, hgs, hgd, hl, hroot, hcc, rfl⟩ := copyToRoot_ok h
+  obtain ⟨hgne, hs, hd, o, a, o', sattrs, h1, hgs, hgd, hl, hroot, hcc, rfl⟩ := copyToRoot_ok h
   obtain ⟨_, _, hspec⟩ := copyChildren_spec hw g S df _ hd h1 .ok (hw df hd hgd) hcc
   obtain ⟨_, _, c3⟩ := hspec rfl
   obtain ⟨r1, ⟨o2, a2, r2⟩, r3⟩ := hr
@@ -2727,11 +2730,13 @@ theorem copyToRoot_reads {fs1 : FS} (hw : WF fs1) {g : String} {S : Path} {df : 
     unfold lookupE at r2; rw [hgs] at r2; exact r2
   have hchild : "pixels" ∈ childNames hs.entries S := by
     rw [mem_childNames]; simp [r2']
-  obtain ⟨g', Q, hs', d, hres, hgs', hlk⟩ := c3 "pixels" hchild
+  obtain ⟨g', Q, hs', d, h', hres, _, hgs', hlk⟩ := c3 "pixels" hchild
   -- … which resolves to itself
-  have hcanon : resolveN fs1 LINKFUEL g (S ++ ["pixels"]) = some (g, S ++ ["pixels"]) := by
-    apply resolveN_groups (by simp [hgs])
+  have hgdf : g ≠ df := hgne
+  have hcanon : resolveN (setFile fs1 df h') LINKFUEL g (S ++ ["pixels"]) = some (g, S ++ ["pixels"]) := by
+    apply resolveN_groups (by rw [getFile_setFile]; have : ¬ df = g := fun e => hgdf e.symm; simp [this, hgs])
     intro q hq hne
+    rw [lookupE_setFile_other _ _ _ _ _ hgdf]
     by_cases hqe : q = S ++ ["pixels"]
     · subst hqe; exact ⟨_, _, r2⟩
     · have hqS := prefix_of_snoc hq hqe
